@@ -3,7 +3,7 @@
    [writer_array_length_word]; the invariant is [value_written] (a value written at any
    position inside any stack of open containers). *)
 From DV Require Import Lib.Base Gen.Tables Spec.Codec Wire.Sig Wire.Body Wire.HeaderEdit Wire.Writer
-  Proofs.CodecBasics Proofs.CodecWf Proofs.CodecRoundtrip Proofs.CodecMessage Proofs.SigRoundtrip Proofs.BodySound Proofs.WireClean.
+  Proofs.CodecBasics Proofs.CodecWf Proofs.CodecRoundtrip Proofs.CodecMessage Proofs.SigRoundtrip Proofs.BodySound Proofs.WireClean Proofs.BodyCursor Proofs.BodyComplete.
 From Coq Require Import ZArith ZifyBool ZifyN ZifyNat Arith.
 Local Open Scope N_scope.
 Ltac Zify.zify_post_hook ::= Z.div_mod_to_equations.
@@ -820,13 +820,37 @@ Proof.
   destruct (w_ct w =? 97); [reflexivity|lia].
 Qed.
 
-Lemma value_written_arr le et vs : Forall (value_written le) vs -> value_written le (VArr et vs).
+(* an array whose elements are written by ANY operation sequence [elemops] that, run in the array's sub-writer,
+   appends the elements' encoding and leaves type_pos where it was: the element-by-element calls ([seq_elems]), or
+   one block call (dbus_message_iter_append_fixed_array, below) *)
+Definition elems_written (le : bool) (et : ty) (vs : list val) (elemops : list wop) : Prop :=
+  forall sf body sigstr w rest depth,
+    active (mkS body sigstr) w (print_ty et) -> w_ct w = 97 -> w_vpos w = nlen body ->
+    pad_amount (nlen body) (spec_align et) = 0 -> wfsb le vs depth (nlen body) = true ->
+    forallb (fun x => ty_eqb (ty_of_val x) et) vs = true -> tygood et = true -> nlen (encs le vs (nlen body)) <= max_array ->
+    run_ops elemops (mkWS le (mkS body sigstr) sf (w :: rest)) =
+    Some (mkWS le (mkS (body ++ encs le vs (nlen body)) sigstr) sf
+               (post_w w (w_tpos w) (nlen (body ++ encs le vs (nlen body))) :: rest)).
+
+Definition writes (le : bool) (ops : list wop) (v : val) : Prop :=
+  forall sf body sigstr w rest depth tail,
+    head_ok sf (mkS body sigstr) w (print_ty (ty_of_val v)) tail ->
+    w_vpos w = nlen body -> wfb le depth (nlen body) v = true -> tygood (ty_of_val v) = true ->
+    run_ops ops (mkWS le (mkS body sigstr) sf (w :: rest)) =
+    Some (post_state le sf body sigstr w rest (print_ty (ty_of_val v)) (tpos_after w v) (body ++ enc le v (nlen body))).
+
+Lemma arr_start_pad pos et : (spec_align et = 1 \/ spec_align et = 2 \/ spec_align et = 4 \/ spec_align et = 8) ->
+  pad_amount (arr_start pos et) (spec_align et) = 0.
+Proof. intros H. unfold arr_start. apply pad_idem. exact H. Qed.
+
+Lemma arr_written le et vs elemops : elems_written le et vs elemops ->
+  writes le (WOpen KArray (print_ty et) :: elemops ++ [WClose]) (VArr et vs).
 Proof.
   intros IH sf body sigstr w rest depth tail Hh Hv Hw Hg.
   destruct (sig_wrap le sf body sigstr w rest _ tail Hh) as (sigstr1 & w1 & Ho & Ha & Hv1 & Hc).
   rewrite Hv in Hv1. cbn [ty_of_val print_ty tygood app] in Ha, Hg.
   rewrite wfb_arr in Hw. apply andb_true_iff in Hw. destruct Hw as [_ Hw]. apply andb_true_iff in Hw. destruct Hw as [Hw Hws].
-  apply andb_true_iff in Hw. destruct Hw as [Hty _].
+  apply andb_true_iff in Hw. destruct Hw as [Hty Hmax].
   set (p1 := pad_amount (nlen body) 4). set (p2 := pad_amount (nlen body + p1 + 4) (spec_align et)).
   pose proof (open_array le body sigstr1 w1 et tail Hg Ha Hv1) as Hopen. fold p1 p2 in Hopen.
   set (body2 := body ++ zeros p1 ++ bytes_of le 4 0 ++ zeros p2) in *.
@@ -834,16 +858,17 @@ Proof.
   pose proof (active_array_sub body sigstr1 w1 (print_ty et) tail (zeros p1 ++ bytes_of le 4 0 ++ zeros p2)
                 (arr_start (nlen body) et) (nlen body + p1) (arr_start (nlen body) et) Ha) as Hsub.
   fold body2 in Hsub.
-  pose proof (seq_elems le et vs IH sf body2 _ _ (post_w w1 (if w_ct w1 =? 97 then w_tpos w1 else w_tpos w1 + (1 + nlen (print_ty et))) (w_vpos w1) :: rest)
+  pose proof (IH sf body2 _ _ (post_w w1 (if w_ct w1 =? 97 then w_tpos w1 else w_tpos w1 + (1 + nlen (print_ty et))) (w_vpos w1) :: rest)
                 (depth + 1) Hsub eq_refl) as Hrun.
-  cbn [w_vpos w_tpos] in Hrun. rewrite Hn2 in Hrun. specialize (Hrun eq_refl Hws Hty Hg).
+  cbn [w_vpos w_tpos] in Hrun. rewrite Hn2 in Hrun.
+  specialize (Hrun eq_refl (arr_start_pad _ _ (proj2 (elem_align_print et Hg))) Hws Hty Hg ltac:(lia)).
   set (payload := encs le vs (arr_start (nlen body) et)) in *.
   pose proof (close_array le body (act_sig sigstr1 w1 (97 :: print_ty et))
                 (post_w w1 (if w_ct w1 =? 97 then w_tpos w1 else w_tpos w1 + (1 + nlen (print_ty et))) (w_vpos w1))
                 (w_ts w1) (w_tpos w1 + 1) (w_tpos w1 + 1) (w_refs w1) et payload (bytes_of le 4 0) (bytes_of_length le 4 0)) as Hclose.
   cbv zeta in Hclose. fold p1 p2 in Hclose.
   destruct (Hc (body ++ enc le (VArr et vs) (nlen body)) (VArr et vs)) as (sf' & m' & w' & Hcl & Heq).
-  rewrite <- Heq. cbn [ops_of_val].
+  rewrite <- Heq.
   eapply run_container; [exact Ho|exact Hopen| | |].
   - unfold post_w in Hrun. cbn [w_ct w_ts w_tpos w_exp w_vpos w_lenpos w_start w_etpos w_refs] in Hrun.
     unfold body2 in Hrun. rewrite <- !app_assoc in Hrun. exact Hrun.
@@ -852,6 +877,12 @@ Proof.
     change (nlen body + p1 + 4 + p2) with (arr_start (nlen body) et). fold payload.
     f_equal. unfold post_w. cbn [w_ct w_ts w_tpos w_exp w_vpos w_lenpos w_start w_etpos w_refs].
     rewrite (tpos_arr w1 et vs). f_equal. nl. reflexivity.
+Qed.
+
+Lemma value_written_arr le et vs : Forall (value_written le) vs -> value_written le (VArr et vs).
+Proof.
+  intros IH. apply (arr_written le et vs (flat_map ops_of_val vs)).
+  intros sf body sigstr w rest depth Ha H97 Hv _ Hw Ht Hg _. exact (seq_elems le et vs IH sf body sigstr w rest depth Ha H97 Hv Hw Ht Hg).
 Qed.
 
 Lemma sig_roundtrips_good t : sig_roundtrips t = true -> tygood t = true /\ nlen (print_ty t) < 256.
@@ -1090,3 +1121,387 @@ Proof. vm_compute. reflexivity. Qed.
 
 Print Assumptions writer_correct.
 Print Assumptions value_written_all.
+
+(* ================================================================================================== *)
+(* dbus_message_iter_append_fixed_array: a block of fixed-size elements in ONE call                    *)
+(* ================================================================================================== *)
+Lemma bytes_of_rev host sz n : rev (bytes_of host sz n) = bytes_of (negb host) sz n.
+Proof. destruct host; cbn [bytes_of negb]; [reflexivity|apply rev_involutive]. Qed.
+
+Lemma bytes_of_len host sz n : length (bytes_of host sz n) = sz.
+Proof. pose proof (bytes_of_length host sz n) as H. unfold nlen in H. lia. Qed.
+
+(* _dbus_swap_array over the caller's elements = the elements in the other byte order *)
+Lemma swap_native host sz : forall ns rest,
+  swap_elems (length ns) sz (flat_map (fun n => bytes_of host sz n) ns ++ rest) =
+  flat_map (fun n => bytes_of (negb host) sz n) ns ++ rest.
+Proof.
+  induction ns as [|x r IH]; intros rest; [reflexivity|].
+  cbn [flat_map length swap_elems]. rewrite <- !app_assoc.
+  rewrite (firstn_app_exact _ _ sz (bytes_of_len host sz x)), (skipn_app_exact _ _ sz (bytes_of_len host sz x)).
+  rewrite IH, bytes_of_rev. reflexivity.
+Qed.
+
+(* marshal_fixed_multi at the end of the body: padding once, then the elements in the MESSAGE's byte order,
+   whatever the host's byte order is *)
+Lemma marshal_fixed_multi_end host le body sz ns : (sz = 2 \/ sz = 4 \/ sz = 8) ->
+  marshal_fixed_multi host le body (nlen body) sz ns =
+  Some (body ++ zeros (pad_amount (nlen body) sz) ++ flat_map (fun n => bytes_of le (N.to_nat sz) n) ns,
+        nlen body + pad_amount (nlen body) sz + nlen ns * sz).
+Proof.
+  intros Hs. unfold marshal_fixed_multi. rewrite (align_value_pad (nlen body) sz) by tauto.
+  replace (nlen body + pad_amount (nlen body) sz - nlen body) with (pad_amount (nlen body) sz) by lia.
+  rewrite insert_at_end. rewrite insert_at_end' by (nl; reflexivity).
+  destruct (Bool.eqb le host) eqn:E.
+  - apply Bool.eqb_prop in E. subst host. rewrite <- app_assoc. reflexivity.
+  - assert (Hh : le = negb host) by (destruct le, host; try discriminate; reflexivity).
+    replace (N.to_nat (nlen body + pad_amount (nlen body) sz)) with (length (body ++ zeros (pad_amount (nlen body) sz)))
+      by (rewrite <- nlen_to_nat; nl; reflexivity).
+    rewrite firstn_app_len, skipn_app_len.
+    rewrite <- (app_nil_r (flat_map (fun n => bytes_of host (N.to_nat sz) n) ns)), swap_native, app_nil_r, <- Hh, <- app_assoc. reflexivity.
+Qed.
+
+(* in particular the result does not depend on the host order *)
+Corollary marshal_fixed_multi_host host1 host2 le body sz ns : (sz = 2 \/ sz = 4 \/ sz = 8) ->
+  marshal_fixed_multi host1 le body (nlen body) sz ns = marshal_fixed_multi host2 le body (nlen body) sz ns.
+Proof. intros H. rewrite !marshal_fixed_multi_end by exact H. reflexivity. Qed.
+
+Lemma flat_bytes_1 le ns : flat_map (fun n => bytes_of le 1 n) ns = map (fun n => n mod 256) ns.
+Proof. induction ns as [|x r IH]; [reflexivity|]. cbn [flat_map map]. rewrite IH, bytes_of_1. reflexivity. Qed.
+
+Lemma marshal_write_fixed_multi_end host le body c sz ns : fixed_size c = Some sz -> pad_amount (nlen body) sz = 0 ->
+  marshal_write_fixed_multi host le body (nlen body) c ns =
+  Some (body ++ flat_map (fun n => bytes_of le (N.to_nat sz) n) ns, nlen body + nlen ns * sz).
+Proof.
+  intros Hsz Hp.
+  destruct (fixed_size_cases c sz Hsz) as [[-> ->]|[[Hc ->]|[[Hc ->]|[Hc ->]]]].
+  - change (marshal_write_fixed_multi host le body (nlen body) 121 ns) with (marshal_1_octets_array body (nlen body) ns).
+    unfold marshal_1_octets_array. rewrite insert_at_end. change (N.to_nat 1) with 1%nat. rewrite flat_bytes_1. f_equal. f_equal. lia.
+  - assert (E : marshal_write_fixed_multi host le body (nlen body) c ns = marshal_fixed_multi host le body (nlen body) 2 ns)
+      by (destruct Hc as [-> | ->]; reflexivity).
+    rewrite E, marshal_fixed_multi_end, Hp by tauto. cbn [zeros N.to_nat repeat app]. f_equal. f_equal. lia.
+  - assert (E : marshal_write_fixed_multi host le body (nlen body) c ns = marshal_fixed_multi host le body (nlen body) 4 ns)
+      by (destruct Hc as [-> |[-> |[-> | ->]]]; reflexivity).
+    rewrite E, marshal_fixed_multi_end, Hp by tauto. cbn [zeros N.to_nat repeat app]. f_equal. f_equal. lia.
+  - assert (E : marshal_write_fixed_multi host le body (nlen body) c ns = marshal_fixed_multi host le body (nlen body) 8 ns)
+      by (destruct Hc as [-> |[-> | ->]]; reflexivity).
+    rewrite E, marshal_fixed_multi_end, Hp by tauto. cbn [zeros N.to_nat repeat app]. f_equal. f_equal. lia.
+Qed.
+
+(* the elements of a well-formed array of fixed type are numbers of that type: the caller's C array *)
+Lemma nums_of_wf le c sz : fixed_size c = Some sz -> forall vs depth start, wfsb le vs depth start = true ->
+  forallb (fun x => ty_eqb (ty_of_val x) (TBasic c)) vs = true ->
+  Writer.nums_of c vs = Some (BodyComplete.nums_of vs) /\ length (BodyComplete.nums_of vs) = length vs /\
+  flat_map ops_of_val vs = map WBasic vs.
+Proof.
+  intros Hsz. induction vs as [|x r IH]; intros depth start Hw Ht; [repeat split|].
+  cbn [wfsb] in Hw. apply andb_true_iff in Hw. destruct Hw as [Hwx Hwr].
+  cbn [forallb] in Ht. apply andb_true_iff in Ht. destruct Ht as [Htx Htr]. apply ty_eqb_eq in Htx.
+  destruct (IH _ _ Hwr Htr) as (I1 & I2 & I3).
+  destruct x as [c' n|c' s0| | | | ]; cbn [ty_of_val] in Htx; try discriminate; inversion Htx; subst c'.
+  - cbn [Writer.nums_of BodyComplete.nums_of length flat_map map ops_of_val app]. rewrite N.eqb_refl, I1, I2, I3. repeat split.
+  - exfalso. cbn [wfb] in Hwx. apply andb_true_iff in Hwx. destruct Hwx as [_ Hwx]. unfold fixed_size in Hsz.
+    destruct (c =? 115) eqn:E1; [assert (c = 115) by lia; subst c; discriminate|].
+    destruct (c =? 111) eqn:E2; [assert (c = 111) by lia; subst c; discriminate|].
+    destruct (c =? 103) eqn:E3; [assert (c = 103) by lia; subst c; discriminate|discriminate].
+Qed.
+
+(* ONE dbus_message_iter_append_fixed_array call in an array's sub-writer, inside any stack of open containers *)
+Theorem fixed_multi_written le c sz vs : fixed_size c = Some sz -> c <> 104 ->
+  elems_written le (TBasic c) vs [WFixedMulti c vs].
+Proof.
+  intros Hsz H104 sf body sigstr w rest depth Ha H97 Hv Hpad Hw Ht Hg Hmax.
+  destruct (fixed_tables c sz Hsz) as (Hfx & Hal & Hs).
+  assert (Hsa : spec_align (TBasic c) = sz) by (cbn [spec_align]; rewrite Hsz; reflexivity). rewrite Hsa in Hpad.
+  assert (Hmod : nlen body mod sz = 0) by (unfold pad_amount in Hpad; destruct Hs as [-> |[-> |[-> | ->]]]; lia).
+  destruct (fixed_elems le c sz Hsz Hfx vs depth (nlen body) Hmod Hw Ht) as (Eenc & Elen & Enl & Hall).
+  destruct (nums_of_wf le c sz Hsz vs depth (nlen body) Hw Ht) as (Enums & _ & _).
+  cbn [run_ops]. unfold writer_step. cbn [ws_le ws_strs ws_sigfield ws_iters].
+  unfold iter_append_fixed_array. rewrite Hfx. change DBUS_TYPE_UNIX_FD with 104. replace (c =? 104) with false by lia. cbn [negb andb].
+  rewrite H97. change (97 =? DBUS_TYPE_ARRAY) with true. cbn [negb]. rewrite Enums.
+  unfold type_get_alignment. rewrite Hal. replace (sz =? 0) with false by lia.
+  assert (Hcnt : (DBUS_MAXIMUM_ARRAY_LENGTH / sz <? nlen (BodyComplete.nums_of vs)) = false).
+  { rewrite Elen in Hmax. unfold nlen. rewrite Enl. unfold max_array in Hmax. change DBUS_MAXIMUM_ARRAY_LENGTH with 67108864.
+    destruct Hs as [-> |[-> |[-> | ->]]]; lia. }
+  rewrite Hcnt.
+  assert (Hbool : (c =? DBUS_TYPE_BOOLEAN) && negb (forallb (fun n => n <=? 1) (BodyComplete.nums_of vs)) = false).
+  { change DBUS_TYPE_BOOLEAN with 98. destruct (c =? 98) eqn:E; [|reflexivity]. cbn [andb]. apply negb_false_iff. apply forallb_forall.
+    intros n Hin. rewrite Forall_forall in Hall. destruct (Hall n Hin) as [_ Hb]. specialize (Hb ltac:(lia)). lia. }
+  rewrite Hbool.
+  assert (He : w_exp w = true).
+  { destruct Ha as [_ [(_ & _ & _ & Hc)|(He & _)]]; [rewrite H97 in Hc; destruct Hc as [?|[?|?]]; discriminate|exact He]. }
+  unfold type_writer_write_fixed_multi. rewrite H97, Hfx, He. change (97 =? DBUS_TYPE_ARRAY) with true. cbn [andb negb].
+  cbn [print_ty] in Ha. rewrite (wov_active _ _ _ _ [] Ha). rewrite H97. change (97 =? 97) with true. cbv iota.
+  cbn [post_w w_ct w_ts w_tpos w_exp w_vpos w_lenpos w_start w_etpos w_refs s_bodystr s_sigstr].
+  rewrite Hv. rewrite (marshal_write_fixed_multi_end compiler_le le body c sz _ Hsz Hpad).
+  rewrite (act_sig_exp _ _ _ He). rewrite Eenc. unfold set_vpos, post_w.
+  cbn [w_ct w_ts w_tpos w_exp w_vpos w_lenpos w_start w_etpos w_refs]. nl.
+  rewrite Eenc in Elen. rewrite Elen. unfold nlen. rewrite Enl. reflexivity.
+Qed.
+
+(* ... equals the elements appended one by one with dbus_message_iter_append_basic: same final state *)
+Theorem fixed_multi_as_basics le c sz vs sf body sigstr w rest depth : fixed_size c = Some sz -> c <> 104 ->
+  active (mkS body sigstr) w [c] -> w_ct w = 97 -> w_vpos w = nlen body -> pad_amount (nlen body) sz = 0 ->
+  wfsb le vs depth (nlen body) = true -> forallb (fun x => ty_eqb (ty_of_val x) (TBasic c)) vs = true ->
+  nlen (encs le vs (nlen body)) <= max_array ->
+  run_ops [WFixedMulti c vs] (mkWS le (mkS body sigstr) sf (w :: rest)) =
+  run_ops (map WBasic vs) (mkWS le (mkS body sigstr) sf (w :: rest)) /\
+  run_ops (map WBasic vs) (mkWS le (mkS body sigstr) sf (w :: rest)) =
+  Some (mkWS le (mkS (body ++ encs le vs (nlen body)) sigstr) sf (post_w w (w_tpos w) (nlen (body ++ encs le vs (nlen body))) :: rest)).
+Proof.
+  intros Hsz H104 Ha H97 Hv Hpad Hw Ht Hmax.
+  destruct (fixed_tables c sz Hsz) as (Hfx & _ & _).
+  assert (Hg : tygood (TBasic c) = true).
+  { cbn [tygood]. destruct (fixed_size_cases c sz Hsz) as [[-> _]|[[Hc _]|[[Hc _]|[Hc _]]]]; [reflexivity| | |];
+      repeat (destruct Hc as [-> |Hc]; [reflexivity|]); subst c; reflexivity. }
+  assert (Hsa : spec_align (TBasic c) = sz) by (cbn [spec_align]; rewrite Hsz; reflexivity).
+  destruct (nums_of_wf le c sz Hsz vs depth (nlen body) Hw Ht) as (_ & _ & Eops).
+  rewrite (fixed_multi_written le c sz vs Hsz H104 sf body sigstr w rest depth Ha H97 Hv ltac:(rewrite Hsa; exact Hpad) Hw Ht Hg Hmax).
+  rewrite <- Eops.
+  assert (Hall : Forall (value_written le) vs) by (apply Forall_forall; intros x _; apply value_written_all).
+  rewrite (seq_elems le (TBasic c) vs Hall sf body sigstr w rest depth Ha H97 Hv Hw Ht Hg).
+  split; reflexivity.
+Qed.
+
+(* open_container, ONE append_fixed_array, close_container = the array value, through any ready iterator *)
+Theorem fixed_array_written le c sz vs : fixed_size c = Some sz -> c <> 104 ->
+  writes le [WOpen KArray [c]; WFixedMulti c vs; WClose] (VArr (TBasic c) vs).
+Proof. intros Hsz H104. exact (arr_written le (TBasic c) vs [WFixedMulti c vs] (fixed_multi_written le c sz vs Hsz H104)). Qed.
+
+Lemma value_written_writes le v : writes le (ops_of_val v) v.
+Proof. exact (value_written_all le v). Qed.
+
+(* ---- a sequence of top-level values, each written by its own operation sequence -------------------------------- *)
+Lemma seq_top_gen le : forall (ps : list (list wop * val)), Forall (fun p => writes le (fst p) (snd p)) ps ->
+  forall sf body vpos lp st et rest,
+  vpos = nlen body -> wfsb le (map snd ps) 0 (nlen body) = true -> forallb tygood (map ty_of_val (map snd ps)) = true ->
+  nlen (sf ++ flat_map print_ty (map ty_of_val (map snd ps))) <= 255 ->
+  run_ops (flat_map fst ps) (mkWS le (mkS body None) sf (mkW 0 TsNone 0 false vpos lp st et 0 :: rest)) =
+  Some (mkWS le (mkS (body ++ encs le (map snd ps) (nlen body)) None) (sf ++ flat_map print_ty (map ty_of_val (map snd ps)))
+             (mkW 0 TsNone 0 false (nlen (body ++ encs le (map snd ps) (nlen body))) lp st et 0 :: rest)).
+Proof.
+  induction 1 as [|[ops x] r Hx Hr IH]; intros sf body vpos lp st et rest Hv Hw Hg Hl.
+  - cbn [flat_map map encs run_ops]. rewrite !app_nil_r, Hv. reflexivity.
+  - cbn [map snd fst] in *. cbn [wfsb] in Hw. apply andb_true_iff in Hw. destruct Hw as [Hwx Hwr].
+    cbn [map forallb] in Hg. apply andb_true_iff in Hg. destruct Hg as [Hgx Hgr].
+    cbn [map flat_map] in Hl. cbn [flat_map fst]. rewrite run_ops_app.
+    assert (Hh : head_ok sf (mkS body None) (mkW 0 TsNone 0 false vpos lp st et 0) (print_ty (ty_of_val x)) []).
+    { left. split; [repeat split|]. rewrite !nlen_app in *. lia. }
+    rewrite (Hx sf body None _ rest 0 [] Hh Hv Hwx Hgx).
+    unfold post_state. cbn [w_ct w_ts w_tpos w_exp w_vpos w_lenpos w_start w_etpos w_refs].
+    assert (Hwr' : wfsb le (map snd r) 0 (nlen (body ++ enc le x (nlen body))) = true) by (rewrite nlen_app; exact Hwr).
+    assert (Hl' : nlen ((sf ++ print_ty (ty_of_val x)) ++ flat_map print_ty (map ty_of_val (map snd r))) <= 255) by (rewrite <- app_assoc; exact Hl).
+    rewrite (IH (sf ++ print_ty (ty_of_val x)) _ _ lp st et rest eq_refl Hwr' Hgr Hl').
+    cbn [encs flat_map map]. cbv zeta. rewrite !nlen_app, <- !app_assoc, ?N.add_assoc. reflexivity.
+Qed.
+
+(* ================================================================================================== *)
+(* dbus_message_append_args_valist                                                                     *)
+(* ================================================================================================== *)
+(* the argument groups the function supports *)
+Definition arg_supported (a : arg) : bool :=
+  match a with
+  | ABasic v => is_basic_val v
+  | AArray c _ => (type_fixed c && negb (c =? 104)) || is_stringlike c
+  end.
+
+Definition ops_of_arg (a : arg) : list wop :=
+  match a with
+  | ABasic v => [WBasic v]
+  | AArray c elems => if type_fixed c && negb (c =? 104) then [WOpen KArray [c]; WFixedMulti c elems; WClose]
+                      else WOpen KArray [c] :: map WBasic elems ++ [WClose]
+  end.
+
+Lemma ops_of_args_supported : forall args, forallb arg_supported args = true ->
+  ops_of_args args = flat_map ops_of_arg args.
+Proof.
+  induction args as [|a r IH]; intros H; [reflexivity|]. cbn [forallb] in H. apply andb_true_iff in H. destruct H as [Ha Hr].
+  destruct a as [v|c elems]; cbn [ops_of_args flat_map ops_of_arg arg_supported] in *.
+  - destruct v; try discriminate; cbn [typecode_of_basic app]; rewrite (IH Hr); reflexivity.
+  - change DBUS_TYPE_UNIX_FD with 104. destruct (type_fixed c && negb (c =? 104)) eqn:E.
+    + cbn [app]. rewrite (IH Hr). reflexivity.
+    + cbn [orb] in Ha. rewrite Ha, (IH Hr). reflexivity.
+Qed.
+
+Lemma basic_elems_ops c : forall vs, forallb (fun x => ty_eqb (ty_of_val x) (TBasic c)) vs = true ->
+  flat_map ops_of_val vs = map WBasic vs.
+Proof.
+  induction vs as [|x r IH]; intros H; [reflexivity|]. cbn [forallb] in H. apply andb_true_iff in H. destruct H as [Hx Hr].
+  apply ty_eqb_eq in Hx. cbn [flat_map map]. rewrite (IH Hr). destruct x; try discriminate; reflexivity.
+Qed.
+
+(* every supported argument group is written as its value *)
+Lemma arg_writes le a : arg_supported a = true -> writes le (ops_of_arg a) (val_of_arg a).
+Proof.
+  destruct a as [v|c elems]; cbn [arg_supported ops_of_arg val_of_arg]; intros Hs.
+  - assert (E : ops_of_val v = [WBasic v]) by (destruct v; try discriminate; reflexivity). rewrite <- E. apply value_written_writes.
+  - destruct (type_fixed c && negb (c =? 104)) eqn:E.
+    + apply andb_true_iff in E. destruct E as [Hf Hn]. destruct (type_fixed_size c Hf) as [sz Hsz].
+      apply (fixed_array_written le c sz elems Hsz). lia.
+    + intros sf body sigstr w rest depth tail Hh Hv Hw Hg.
+      assert (Ht : forallb (fun x => ty_eqb (ty_of_val x) (TBasic c)) elems = true).
+      { rewrite wfb_arr in Hw. apply andb_true_iff in Hw. destruct Hw as [_ Hw]. apply andb_true_iff in Hw. destruct Hw as [Hw _].
+        apply andb_true_iff in Hw. exact (proj1 Hw). }
+      rewrite <- (basic_elems_ops c elems Ht).
+      exact (value_written_all le (VArr (TBasic c) elems) sf body sigstr w rest depth tail Hh Hv Hw Hg).
+Qed.
+
+Lemma flat_map_pairs {A B C} (f : A -> list B) (g : A -> C) (l : list A) :
+  flat_map f l = flat_map fst (map (fun a => (f a, g a)) l).
+Proof. induction l as [|a r IH]; [reflexivity|]. cbn [flat_map map fst]. rewrite IH. reflexivity. Qed.
+
+(* ONE dbus_message_append_args call with any number of supported groups = the values appended through the iterator API *)
+Theorem writer_append_args le args : forallb arg_supported args = true ->
+  wfsb le (map val_of_arg args) 0 0 = true -> forallb tygood (map ty_of_val (map val_of_arg args)) = true ->
+  nlen (flat_map print_ty (map ty_of_val (map val_of_arg args))) <= 255 ->
+  run_writer le (ops_of_args args) = Some (encs le (map val_of_arg args) 0, flat_map print_ty (map ty_of_val (map val_of_arg args))) /\
+  run_writer le (ops_of_args args) = run_writer le (ops_of_vals (map val_of_arg args)).
+Proof.
+  intros Hs Hw Hg Hl. rewrite (writer_correct le _ Hw Hg Hl).
+  cut (run_writer le (ops_of_args args) = Some (encs le (map val_of_arg args) 0, flat_map print_ty (map ty_of_val (map val_of_arg args)))); [intros E; split; exact E|].
+  rewrite (ops_of_args_supported args Hs).
+  set (ps := map (fun a => (ops_of_arg a, val_of_arg a)) args).
+  assert (E1 : flat_map ops_of_arg args = flat_map fst ps) by (unfold ps; apply flat_map_pairs).
+  assert (E2 : map val_of_arg args = map snd ps) by (unfold ps; rewrite map_map; reflexivity).
+  assert (Hps : Forall (fun p => writes le (fst p) (snd p)) ps).
+  { unfold ps. apply Forall_forall. intros p Hin. apply in_map_iff in Hin. destruct Hin as (a & <- & Hin). cbn [fst snd].
+    apply arg_writes. rewrite forallb_forall in Hs. apply Hs. exact Hin. }
+  rewrite E1. rewrite E2 in *. unfold run_writer, run_writer_from, winit.
+  rewrite (seq_top_gen le ps Hps [] [] _ 0 0 0 [] eq_refl Hw Hg Hl). reflexivity.
+Qed.
+
+(* one dbus_message_append_args call PER argument (each makes its own dbus_message_iter_init_append): same result *)
+Theorem writer_append_args_calls le : forall args body sg, forallb arg_supported args = true ->
+  wfsb le (map val_of_arg args) 0 (nlen body) = true -> forallb tygood (map ty_of_val (map val_of_arg args)) = true ->
+  nlen (sg ++ flat_map print_ty (map ty_of_val (map val_of_arg args))) <= 255 ->
+  run_calls le body sg (map (fun a => ops_of_args [a]) args) =
+  Some (body ++ encs le (map val_of_arg args) (nlen body), sg ++ flat_map print_ty (map ty_of_val (map val_of_arg args))).
+Proof.
+  induction args as [|a r IH]; intros body sg Hs Hw Hg Hl.
+  - cbn [map run_calls encs flat_map]. rewrite !app_nil_r. reflexivity.
+  - cbn [forallb] in Hs. apply andb_true_iff in Hs. destruct Hs as [Hsa Hsr].
+    cbn [map wfsb] in Hw. apply andb_true_iff in Hw. destruct Hw as [Hwa Hwr].
+    cbn [map forallb] in Hg. apply andb_true_iff in Hg. destruct Hg as [Hga Hgr].
+    cbn [map flat_map] in Hl. cbn [map run_calls].
+    rewrite (ops_of_args_supported [a]) by (cbn [forallb]; rewrite Hsa; reflexivity). cbn [flat_map]. rewrite app_nil_r.
+    assert (Hone : run_writer_from le body sg (ops_of_arg a) = Some (body ++ enc le (val_of_arg a) (nlen body), sg ++ print_ty (ty_of_val (val_of_arg a)))).
+    { unfold run_writer_from, winit.
+      assert (Hps : Forall (fun p : list wop * val => writes le (fst p) (snd p)) [(ops_of_arg a, val_of_arg a)])
+        by (constructor; [exact (arg_writes le a Hsa)|constructor]).
+      pose proof (seq_top_gen le [(ops_of_arg a, val_of_arg a)] Hps sg body _ 0 0 0 [] eq_refl) as H.
+      cbn [map snd fst flat_map wfsb forallb encs] in H. rewrite !app_nil_r in H.
+      rewrite H; [reflexivity|rewrite Hwa; reflexivity|rewrite Hga; reflexivity|rewrite !nlen_app in *; lia]. }
+    rewrite Hone.
+    assert (Hwr' : wfsb le (map val_of_arg r) 0 (nlen (body ++ enc le (val_of_arg a) (nlen body))) = true) by (rewrite nlen_app; exact Hwr).
+    assert (Hl' : nlen ((sg ++ print_ty (ty_of_val (val_of_arg a))) ++ flat_map print_ty (map ty_of_val (map val_of_arg r))) <= 255)
+      by (rewrite <- app_assoc; exact Hl).
+    rewrite (IH _ _ Hsr Hwr' Hgr Hl').
+    cbn [encs flat_map]. cbv zeta. rewrite !nlen_app, <- !app_assoc. reflexivity.
+Qed.
+
+(* ================================================================================================== *)
+(* dbus_message_iter_abandon_container                                                                  *)
+(* ================================================================================================== *)
+(* abandoning never touches the body bytes or the SIGNATURE field, and the parent's value_pos is NOT brought up to
+   date: whatever the container wrote stays in the body, unaccounted for by any signature *)
+Theorem abandon_step le m sf sub real rest st' :
+  writer_step (mkWS le m sf (sub :: real :: rest)) WAbandon = Some st' ->
+  s_bodystr (ws_strs st') = s_bodystr m /\ ws_sigfield st' = sf /\
+  exists r1, ws_iters st' = r1 :: rest /\ w_vpos r1 = w_vpos real /\ w_ct r1 = w_ct real.
+Proof.
+  unfold writer_step. cbn [ws_le ws_strs ws_sigfield ws_iters]. unfold iter_abandon_signature.
+  destruct (negb (has_ts real) || (w_refs real =? 0)); [discriminate|].
+  destruct (0 <? w_refs real - 1).
+  - intros H. injection H as <-. cbn. repeat split. eexists. repeat split.
+  - destruct (w_ts real); try discriminate. destruct (s_sigstr m); [|discriminate].
+    intros H. injection H as <-. cbn. repeat split. eexists. repeat split.
+Qed.
+
+(* a top-level array abandoned after its elements: the body keeps the padding, the length word still 0, the element
+   padding and the elements; the signature is what it was *)
+Theorem writer_abandon_array le et vs body0 sg0 depth : tygood et = true -> wfb le depth (nlen body0) (VArr et vs) = true ->
+  run_writer_from le body0 sg0 (WOpen KArray (print_ty et) :: flat_map ops_of_val vs ++ [WAbandon]) =
+  Some (body0 ++ zeros (pad_amount (nlen body0) 4) ++ bytes_of le 4 0 ++
+        zeros (pad_amount (nlen body0 + pad_amount (nlen body0) 4 + 4) (spec_align et)) ++ encs le vs (arr_start (nlen body0) et), sg0).
+Proof.
+  intros Hg Hw. rewrite wfb_arr in Hw. apply andb_true_iff in Hw. destruct Hw as [_ Hw]. apply andb_true_iff in Hw. destruct Hw as [Hw Hws].
+  apply andb_true_iff in Hw. destruct Hw as [Hty _].
+  unfold run_writer_from, winit. cbn [run_ops]. unfold writer_step at 1. cbn [ws_le ws_strs ws_sigfield ws_iters].
+  change (iter_open_signature sg0 (mkS body0 None) (mkW 0 TsNone 0 false (nlen body0) 0 0 0 0))
+    with (Some (mkS body0 (Some sg0), mkW 0 TsSig (nlen sg0) false (nlen body0) 0 0 0 1)).
+  set (w1 := mkW 0 TsSig (nlen sg0) false (nlen body0) 0 0 0 1).
+  assert (Ha : active (mkS body0 (Some sg0)) w1 (97 :: print_ty et ++ [])).
+  { split; [cbn; lia|]. left. cbn. repeat split; auto. exists sg0. auto. }
+  cbv iota beta. rewrite (open_array le body0 (Some sg0) w1 et [] Hg Ha eq_refl).
+  set (p1 := pad_amount (nlen body0) 4). set (p2 := pad_amount (nlen body0 + p1 + 4) (spec_align et)).
+  set (body2 := body0 ++ zeros p1 ++ bytes_of le 4 0 ++ zeros p2).
+  assert (Hn2 : nlen body2 = arr_start (nlen body0) et) by (unfold body2, arr_start; fold p1 p2; nl; change (N.of_nat 4) with 4; lia).
+  pose proof (active_array_sub body0 (Some sg0) w1 (print_ty et) [] (zeros p1 ++ bytes_of le 4 0 ++ zeros p2)
+                (arr_start (nlen body0) et) (nlen body0 + p1) (arr_start (nlen body0) et) Ha) as Hsub. fold body2 in Hsub.
+  assert (Hall : Forall (value_written le) vs) by (apply Forall_forall; intros x _; apply value_written_all).
+  rewrite run_ops_app.
+  pose proof (seq_elems le et vs Hall sg0 body2 _ _ (post_w w1 (if w_ct w1 =? 97 then w_tpos w1 else w_tpos w1 + (1 + nlen (print_ty et))) (w_vpos w1) :: [])
+                (depth + 1) Hsub eq_refl) as Hrun.
+  cbn [w_vpos] in Hrun. rewrite Hn2 in Hrun. specialize (Hrun eq_refl Hws Hty Hg). rewrite Hrun.
+  cbn [run_ops]. unfold writer_step. cbn [ws_le ws_strs ws_sigfield ws_iters]. 
+  unfold iter_abandon_signature, post_w, w1, act_sig, has_ts. cbn [w_ct w_ts w_tpos w_exp w_vpos w_lenpos w_start w_etpos w_refs s_sigstr s_bodystr negb orb].
+  change (1 =? 0) with false. change (0 <? 1 - 1) with false. cbv iota. unfold wresult. cbn [ws_iters ws_strs s_bodystr ws_sigfield].
+  unfold body2. rewrite <- !app_assoc. reflexivity.
+Qed.
+
+(* ---- examples ------------------------------------------------------------------------------------------- *)
+Definition wchk_ops (le : bool) (ops : list wop) (vs : list val) : bool :=
+  match run_writer le ops with
+  | Some (b, s) => bytes_eqb b (encs le vs 0) && bytes_eqb s (flat_map print_ty (map ty_of_val vs))
+  | None => false
+  end.
+Definition fx (c : N) (ns : list N) : val := VArr (TBasic c) (map (VNum c) ns).
+Definition fxops (c : N) (ns : list N) : list wop := [WOpen KArray [c]; WFixedMulti c (map (VNum c) ns); WClose].
+
+(* every fixed type, n = 0 / 1 / 3, after one byte (so that the element padding shows), both byte orders: with
+   [compiler_le] = true the big-endian runs go through _dbus_swap_array *)
+Example wex_fixed_multi :
+  forallb (fun le => forallb (fun c => forallb (fun ns =>
+     wchk_ops le (WBasic (VNum 121 1) :: fxops c ns ++ [WBasic (VNum 121 2)]) [VNum 121 1; fx c ns; VNum 121 2])
+     [[]; [1]; [0; 1; 1]]) [121; 98; 110; 113; 105; 117; 120; 116; 100]) [true; false] = true.
+Proof. vm_compute. reflexivity. Qed.
+Example wex_fixed_multi_values :
+  wchk_ops false (fxops 120 [72623859790382856; 1] ++ fxops 113 [258; 65535] ++ fxops 105 (map N.of_nat (seq 0 300)))
+                 [fx 120 [72623859790382856; 1]; fx 113 [258; 65535]; fx 105 (map N.of_nat (seq 0 300))] = true.
+Proof. vm_compute. reflexivity. Qed.
+Example wex_fixed_multi_be_bytes : run_writer false (fxops 113 [258; 3]) = Some ([0;0;0;4; 1;2; 0;3], [97; 113]).
+Proof. vm_compute. reflexivity. Qed.
+(* misuse: outside an array, wrong element type, a boolean that is not 0/1, descriptors *)
+Example wex_fixed_multi_misuse :
+  run_writer true [WFixedMulti 105 [VNum 105 1]] = None /\
+  run_writer true [WOpen KArray [120]; WFixedMulti 105 [VNum 105 1]; WClose] = None /\
+  run_writer true [WOpen KArray [98]; WFixedMulti 98 [VNum 98 2]; WClose] = None /\
+  run_writer true [WOpen KArray [104]; WFixedMulti 104 [VNum 104 0]; WClose] = None /\
+  run_writer true [WOpen KArray [115]; WFixedMulti 115 []; WClose] = None.
+Proof. vm_compute. repeat split; reflexivity. Qed.
+
+(* dbus_message_append_args: basics, a fixed array, an empty fixed array, a string array *)
+Definition wex_args : list arg :=
+  [ABasic (VNum 121 1); AArray 120 [VNum 120 1; VNum 120 2]; AArray 98 []; AArray 115 [VStr 115 [97]; VStr 115 []]; ABasic (VStr 111 [47])].
+Example wex_args_ok :
+  forallb arg_supported wex_args = true /\ wchk true (map val_of_arg wex_args) = true /\
+  wchk_ops true (ops_of_args wex_args) (map val_of_arg wex_args) = true /\ wchk_ops false (ops_of_args wex_args) (map val_of_arg wex_args) = true /\
+  run_calls true [] [] (map (fun a => ops_of_args [a]) wex_args) = run_writer true (ops_of_vals (map val_of_arg wex_args)).
+Proof. vm_compute. repeat split; reflexivity. Qed.
+(* an array the varargs function does not support (array of variants): the container is opened, then abandoned; the
+   remaining arguments are not appended; the body keeps the 4 bytes of the length word, the signature knows nothing *)
+Example wex_args_unsupported :
+  ops_of_args [ABasic (VNum 121 1); AArray 118 []; ABasic (VNum 121 2)] = [WBasic (VNum 121 1); WOpen KArray [118]; WAbandon] /\
+  run_writer true (ops_of_args [ABasic (VNum 121 1); AArray 118 []; ABasic (VNum 121 2)]) = Some ([1; 0;0;0; 0;0;0;0], [121]).
+Proof. vm_compute. split; reflexivity. Qed.
+(* after an abandon the same iterator's value_pos is stale: the next value is inserted BEFORE the abandoned bytes *)
+Example wex_abandon_then_append :
+  run_writer true [WOpen KArray [120]; WBasic (VNum 120 5); WAbandon; WBasic (VNum 121 7)]
+  = Some ([7; 0;0;0;0; 0;0;0;0; 5;0;0;0;0;0;0;0], [121]).
+Proof. vm_compute. reflexivity. Qed.
+Example wex_abandon_if_open_noop : run_writer true [WBasic (VNum 121 7); WAbandonIfOpen] = Some ([7], [121]).
+Proof. vm_compute. reflexivity. Qed.
+
+Print Assumptions fixed_array_written.
+Print Assumptions writer_append_args_calls.
+Print Assumptions writer_abandon_array.
